@@ -7,7 +7,7 @@ TOL = (1e-6, 1e-6)
 BOUNDS = {
     "quick": "about 90 document skeletons over svg/g/defs/use/nested svg/rect/line/polyline/polygon/path/circle with nesting depth <= 3, transform lists "
              "(translate, scale, reflection, matrix, rotate, skewX) on any element, unit-bearing and percentage attributes, display:none, unreferenced definitions, "
-             "use of shape / of group / nested use; every number symbolic; configurations reify in {True, False}, ppi symbolic, caller width/height/transform",
+             "use of shape / of group / nested use; rounded rectangles (end points of the SVG 2 decomposition) under non-uniform scale; percentage content after leaving two nested viewports; every number symbolic; configurations reify in {True, False}, ppi symbolic, caller width/height/transform",
     "thorough": "the quick family crossed with every shape kind at every leaf and both reify settings for every skeleton",
 }
 OUTSIDE = ["nesting deeper than the bound", "round shapes under non-similarity transforms (C02/C06)", "text and images", "stylesheet effects (C14)"]
